@@ -194,9 +194,10 @@ def make_run(mode, shapes_):
 
 
 def contracts(tier):
+    from . import writers
     maxn = 4 if tier == 'thorough' else 3
     shapes_ = forest_shapes(maxn)
-    cs = []
+    cs = list(writers.contracts(tier))
     for mode in ('default', 'pretty', 'wrap', 'checking'):
 
         def run(eng, p, mode=mode):
